@@ -22,7 +22,7 @@ use serde_json::json;
 #[derive(Debug, Clone, Copy, PartialEq)]
 enum Ra { Absent, Authentic, SigFlip, OtherSession, OtherItems, UntrustedCa, NoX5, GarbageX5, AttachedPayload, WrongAlg, OtherKey }
 
-fn items_request_bytes(rng: &mut StdRng, noncanonical: bool) -> Vec<u8> {
+pub fn items_request_bytes(rng: &mut StdRng, noncanonical: bool) -> Vec<u8> {
     let ids = ["family_name", "given_name", "age_over_18", "portrait"];
     let n = rng.gen_range(1..=3);
     let els: Vec<(Value, Value)> = ids.iter().take(n).map(|i| (text(i), Value::Bool(rng.gen()))).collect();
@@ -35,7 +35,7 @@ fn items_request_bytes(rng: &mut StdRng, noncanonical: bool) -> Vec<u8> {
     b
 }
 
-fn reader_auth(key: &SigningKey, cert_der: Option<Vec<u8>>, x5_override: Option<Value>, alg: i64, tbs_payload: &[u8], attach: bool) -> Value {
+pub fn reader_auth(key: &SigningKey, cert_der: Option<Vec<u8>>, x5_override: Option<Value>, alg: i64, tbs_payload: &[u8], attach: bool) -> Value {
     let prot = to_bytes(&Value::Map(vec![(Value::Integer(1.into()), Value::Integer(alg.into()))]));
     let tbs = to_bytes(&arr(vec![text("Signature1"), bytes(&prot), bytes(&[]), bytes(tbs_payload)]));
     let s: Signature = key.sign(&tbs);
@@ -45,7 +45,7 @@ fn reader_auth(key: &SigningKey, cert_der: Option<Vec<u8>>, x5_override: Option<
     arr(vec![bytes(&prot), Value::Map(un), if attach { bytes(tbs_payload) } else { Value::Null }, bytes(&s.to_vec())])
 }
 
-fn rab(de: &[u8], erk: &[u8], items: &[u8]) -> Vec<u8> {
+pub fn rab(de: &[u8], erk: &[u8], items: &[u8]) -> Vec<u8> {
     let ra = arr(vec![text("ReaderAuthentication"),
         arr(vec![Value::Tag(24, Box::new(bytes(de))), Value::Tag(24, Box::new(bytes(erk))), Value::Null]),
         Value::Tag(24, Box::new(bytes(items)))]);
